@@ -224,7 +224,10 @@ def shard_tmpl(spec, rec):
         hist = []
         for _ in range(rng.randint(4, 24)):
             r = rng.random()
-            if r < 0.55:
+            if r < 0.12:
+                # the same template STRING compiled for two different template names / origins (relative include)
+                hist.append(["ctrel", rng.randrange(2)])
+            elif r < 0.55:
                 hist.append(["ct", rng.randrange(ntem)])
             elif r < 0.95:
                 hist.append(["render", rng.randrange(ntem)])
@@ -242,6 +245,7 @@ def shard_tmpl(spec, rec):
 
 
 UNKNOWN = object()
+REL_SRC = '{% include "./inc.html" %}:{{ v }}'
 
 
 def run_tmpl_case(case, rec):
@@ -251,6 +255,12 @@ def run_tmpl_case(case, rec):
     import django_components.cache as dcache
     from django_components import Component, cached_template, registry
 
+    from django.template import Origin, engines
+
+    from vf import boot
+
+    boot.LOCMEM.update({"c18dir0/inc.html": "INC-ZERO", "c18dir1/inc.html": "INC-ONE"})
+    engine = engines["django"].engine
     size, ntem, tag = case["size"], case["ntem"], case["tag"]
     srcs = [f"<b>T{i}-{tag} {{{{ v }}}} {{% if v %}}y{i}{{% endif %}}</b>" for i in range(ntem)]
     comps = {}
@@ -270,9 +280,23 @@ def run_tmpl_case(case, rec):
                     gone.update({k: v for k, v in held.items() if v is not UNKNOWN})
                     held.clear()
                     continue
-                src = srcs[i]
-                was = model.get(src)
-                if op == "ct":
+                src = srcs[i] if op != "ctrel" else REL_SRC + f"<!--{tag}-->"
+                # the cache key covers everything the compiled Template depends on: string, template name, origin
+                mkey = (src, i) if op == "ctrel" else (src, "component") if op == "render" else src
+                was = model.get(mkey)
+                if op == "ctrel":
+                    # identical source, different template name: "./inc.html" resolves relative to the name
+                    nm = f"c18dir{i}/main.html"
+                    kw = {"name": nm, "engine": engine}
+                    t = cached_template(src, origin=Origin(name=nm, template_name=nm), **kw)
+                    got = t.render(Context({"v": step}))
+                    exp = Template(src, origin=Origin(name=nm, template_name=nm), **kw).render(Context({"v": step}))
+                    rec.observe("fresh-compile-comparisons")
+                    rec.count("relative_include_compilations")
+                    if got != exp:
+                        return "cache-not-transparent", f"step {step}: cached_template({src[:30]!r}, name={nm!r}) output {got!r} != fresh {exp!r}"
+                    t2 = t
+                elif op == "ct":
                     t = cached_template(src)
                     got = t.render(Context({"v": step}))
                     exp = Template(src).render(Context({"v": step}))
@@ -291,18 +315,18 @@ def run_tmpl_case(case, rec):
                     # ask cached_template *after* the render; it must be the one just used.
                     t2 = None
                 if was is None:
-                    model.set(src, True)
+                    model.set(mkey, True)
                 # identity while cached (UNKNOWN = entry created by a component render)
-                if op == "ct":
+                if op in ("ct", "ctrel"):
                     rec.observe("identity-checks")
-                    prev = held.get(src)
+                    prev = held.get(mkey)
                     if was is not None and prev is not None and prev is not UNKNOWN and prev is not t2:
                         return "identity-lost-while-cached", f"step {step}: key cached per model but a different Template object was returned"
-                    if was is None and src in gone and gone[src] is t2:
+                    if was is None and mkey in gone and gone[mkey] is t2:
                         return "entry-survived-eviction", f"step {step}: model says evicted/absent, yet the identical Template object came back (cache holds more than {eff})"
-                    held[src] = t2
+                    held[mkey] = t2
                 elif was is None:
-                    held[src] = UNKNOWN
+                    held[mkey] = UNKNOWN
                 for k in list(held):
                     if k not in model.d:
                         v = held.pop(k)
